@@ -309,7 +309,40 @@ func c02(r *ev.Run) {
 		jobs = append(jobs, job{p, ts})
 	}
 	const max62 = int64(1)<<62 - 1
-	for _, p := range []uint64{3600, 86400, 1 << 16, 1<<31 - 1, 1 << 31, 1<<32 - 1, 1 << 32} {
+	bigPeriods := []uint64{3600, 86400, 1 << 16, 1<<31 - 1, 1 << 31, 1<<32 - 1, 1 << 32}
+	// "round" periods, which a heuristic could take for a value in another unit (milli-, micro-, nanoseconds, a
+	// time.Duration) or for a flag: d x 10^k, the usual spans of time in seconds and in finer units, every power of two
+	{
+		seen := map[uint64]bool{}
+		for _, p := range bigPeriods {
+			seen[p] = true
+		}
+		add := func(p uint64) {
+			if p > 64 && p <= 1<<32 && !seen[p] {
+				seen[p] = true
+				bigPeriods = append(bigPeriods, p)
+			}
+		}
+		for k, pw := 2, uint64(100); k <= 9; k, pw = k+1, pw*10 {
+			for d := uint64(1); d <= 9; d++ {
+				add(d * pw)
+			}
+			add(pw - 1)
+			add(pw + 1)
+		}
+		for _, span := range []uint64{90, 120, 300, 600, 900, 1800, 7200, 43200, 604800, 2592000, 31536000} {
+			add(span)
+		}
+		for _, unit := range []uint64{1000, 1000000} {
+			for _, sec := range []uint64{1, 15, 30, 60, 90, 300, 3600} {
+				add(sec * unit)
+			}
+		}
+		for k := 7; k < 32; k++ {
+			add(1 << k)
+		}
+	}
+	for _, p := range bigPeriods {
 		var ts []int64
 		top := uint64(max62) / p
 		for _, n := range []uint64{0, 1, 2, top - 1, top} {
@@ -534,7 +567,7 @@ func c02(r *ev.Run) {
 	}
 	r.Sample(map[string]any{"case": c02Case{spellings(keys[0])[0], 59, 999999999, 3, true, 30, 8, 0, false, 0, false, 0}, "ref": ref.HOTP(keys[0], 1, 8, 0)})
 	r.Sample(map[string]any{"case": c02Case{spellings(keys[0])[0], 89, 0, 0, false, 0, 6, 1, false, 0, false, 0}, "note": "period 0 means 30", "ref": ref.HOTP(keys[0], 2, 6, 1)})
-	r.Set("alphabet", map[string]any{"periods": "0..64 (every whole second of 4 steps + boundaries near 1111111100, 2^31, 2^32), 3600, 86400, 2^16, 2^31-1, 2^31, 2^32-1, 2^32 (boundaries of steps 0,1,2,top-1,top and t around 2^31, 2^32, 2^62-1)", "nsec": nsecs, "locations": "UTC,+14:00,-12:00,+05:45", "monotonic": "with/without where representable", "digits": "6,8,10", "hash": "0..2", "param": "nil/explicit"})
+	r.Set("alphabet", map[string]any{"periods": "0..64 (every whole second of 4 steps + boundaries near 1111111100, 2^31, 2^32), 3600, 86400, 2^16, 2^31-1, 2^31, 2^32-1, 2^32, d x 10^k (k=2..9) and 10^k +-1, the usual spans in seconds and in milli-/microseconds, every power of two (boundaries of steps 0,1,2,top-1,top and t around 2^31, 2^32, 2^62-1)", "nsec": nsecs, "locations": "UTC,+14:00,-12:00,+05:45", "monotonic": "with/without where representable", "digits": "6,8,10", "hash": "0..2", "param": "nil/explicit"})
 	r.Rule("every (period, instant) of the grid x digits x hash through GenerateTOTP vs reference HOTP at floor(unix/period) (0 => 30), every instant also in all nsec/zone/monotonic variants, each generated code validated at its own instant; distinct = distinct (period, step, hash, output) tuples")
 	r.Assume("time.Time.Unix() of the Go standard library; crypto/hmac")
 }
